@@ -29,9 +29,9 @@ EP_ACTIONS = ["cer1", "cer2", "cerx", "cer1nc", "cea_ok", "cea_rej", "dwr", "dwa
               "req_realm", "req_app9", "dpr_req", "half", "ans", "ans_unk", "eof", "rst", "req_h0", "req_e0", "dwr_00",
               "req_part", "cea_rej_req", "cer1_req", "req_raise", "wr_eagain", "wr_short", "req_lag"]
 GLOBAL = ["accept", "dial1", "dial1_refused", "app_ans", "app_ans_new", "app_ans_again", "app_req0", "app_req1", "tick5", "tick25", "tick31", "node_close_old",
-          "handler_raises", "reconn1", "reconn1_out", "both_lag"]
+          "handler_raises", "reconn1", "reconn1_out", "both_lag", "dial1_early"]
 FUNCTIONS = ["wire level (uni): Node._handle_connections, PeerConnection.work_read_queue/work_write_queue, Node._receive_message and every receive_*/send_* handler, route_request/route_answer, _check_timers, _reconnect_peers, remove_peer_connection - driven by bytes on virtual sockets, observed as bytes"]
-BOUNDS = {"quick": "wire-level histories (uni): every 2-event history over 82 events from the 2-4 initial states closest to the property, this property's monitor after every event",
+BOUNDS = {"quick": "wire-level histories (uni): every 2-event history over 83 events from the 2-4 initial states closest to the property, this property's monitor after every event",
           "thorough": "wire-level histories (uni): every 2-event history from 9 initial states x {persistent, non-persistent peers}; every 3-event history for 48 seeded (initial state, first event) pairs"}
 OUTSIDE = ["wire-level histories deeper than 3 events beyond the 9 initial states", "more than 2 configured peers / 3 simultaneous connections in the wire-level histories"]
 EVENTS = [a + "@new" for a in EP_ACTIONS] + [a + "@old" for a in EP_ACTIONS] + GLOBAL
@@ -148,6 +148,10 @@ class Uni:
             self.bad("C14", "a node/connection worker died: %s: %s" % (type(e).__name__, str(e)[:100]))
         for s in self.b.listener.backlog:
             pass
+        self.register_dials()
+        self.observe()
+
+    def register_dials(self):
         # sockets the node created itself (reconnects)
         known = {id(e.sock) for e in self.eps}
         for t, addr, s in WORLD.dialled:
@@ -155,7 +159,6 @@ class Uni:
                 known.add(id(s))
                 peer = {"10.0.1.1": P1, "10.0.1.2": P2}.get(addr[0] if isinstance(addr, tuple) else addr)
                 self.note_dial(s, peer, t)
-        self.observe()
 
     # ------------------------------------------------------------------ what the node transmitted
     def observe(self):
@@ -236,8 +239,10 @@ class Uni:
         if isinstance(oh, (bytes, bytearray)) and h.command_code in BASE_CODES and bytes(oh) != B.NODE_HOST.encode():
             self.bad("C20", "answer generated by the node carries Origin-Host %r" % bytes(oh))
         if h.command_code == 257:
-            if ep.dir != "in":
-                self.bad("C06", "CEA transmitted on an outbound connection")
+            if ep.dir != "in" and not any(k[0] == 257 for k in ep.ledger):
+                self.bad("C06", "CEA transmitted on an outbound connection that has not received a CER")
+            if ep.ce_out != "none":
+                return                      # answer to an unexpected (second) CER: unspecified, and it changes nothing
             if ep.allowed_cea is not None and rc not in ep.allowed_cea:
                 self.bad("C06", "CER answered with result %s, expected one of %s" % (rc, sorted(ep.allowed_cea)))
             if rc == 2001 and ep.allowed_cea is not None:
@@ -494,8 +499,10 @@ class Uni:
             i = self.nid()
             origin = ep.claimed or (ep.dialled if ep.dir == "out" else P1)
             if act in ("cer1", "cer2", "cerx", "cer1nc"):
-                if ep.dir != "in" or ep.cer_sent:
+                if (ep.dir != "in" or ep.cer_sent) and act != "cer1":
                     return False
+                # (cer1 on a connection that has had its capabilities exchange, or that the node dialled, is an unexpected CER:
+                # whatever the node answers, the connection's standing must not change)
                 who = {"cer1": P1, "cer2": P2, "cerx": PX, "cer1nc": P1}[act]
                 return self.push(ep, [(B.cer(who, apps=[9] if act == "cer1nc" else [4], hbh=i, e2e=i), act)])
             if act in ("cea_ok", "cea_rej"):
@@ -589,6 +596,28 @@ class Uni:
             self.b.listener.backlog.append(s)
             self.settle()
             return True
+        if name == "dial1_early":
+            # the TCP handshake of a dialled connection completes and the far end talks at once: its bytes are readable in the
+            # same select round in which the socket becomes writable, and the reader thread runs as soon as they are queued
+            if any(e.dir == "out" and e.dialled == P1 and e.open for e in self.eps):
+                return False
+            WORLD.connect_plan.append("inprogress")
+            pre = len(self.eps)
+            try:
+                n._connect_to_peer(self.b.peers[0])
+            except Exception as e:
+                self.bad("C14", "_connect_to_peer raised %s" % type(e).__name__)
+            self.register_dials()
+            if len(self.eps) == pre:
+                return False
+            ep = self.eps[pre]
+            ep.mine = True
+            i = self.nid()
+            WORLD.eager_reader = True
+            try:
+                return self.push(ep, [(B.dwr(P1, i, i), "dwr"), (self.mk_req(ep, "req"), "req")])
+            finally:
+                WORLD.eager_reader = False
         if name in ("dial1", "dial2", "dial1_refused"):
             peer = self.b.peers[1 if name == "dial2" else 0]
             pname = P2 if name == "dial2" else P1
